@@ -113,7 +113,17 @@ func c23(r *Run) {
 			}
 			r.check(okS, "C23.R3", "add:streamed-skipped", r.at(w, eh[0].Ins), "", "an item handed out in the current stream can be re-added before the stream finishes")
 			// the ID tested is the item's ID
-			r.check(hasMatch(cs, "!(*internal/eheap.ExpiryHeap).Has(p0.eh, (*).GetID(p1[*]))"), "C23.R3", "add:duplicate-check-on-item-id", r.at(w, eh[0].Ins), "", "the duplicate check is not applied to the item's own ID")
+			sameItem := false
+		for _, hc := range callsNamed(add, "(*"+H+"/internal/eheap.ExpiryHeap).Has") {
+			if gid, ok := strip(hc.Common().Args[1]).(*ssa.Call); ok && strings.HasSuffix(calleeName(gid), ".GetID") {
+				for _, pb := range callsTo(add, func(n string) bool { return strings.HasSuffix(n, "internal/list.List).PushBack") || strings.HasSuffix(n, "internal/list.List).PushFront") }) {
+					if sameValue(callArgs(gid)[0], pb.Common().Args[1]) {
+						sameItem = true
+					}
+				}
+			}
+		}
+		r.check(sameItem && hasMatch(cs, "!(*internal/eheap.ExpiryHeap).Has(p0.eh, (*).GetID(*))"), "C23.R3", "add:duplicate-check-on-item-id", r.at(w, eh[0].Ins), "", "the duplicate check is not applied to the item's own ID")
 		}
 	}
 	type rm struct{ fn, q, h string }
@@ -185,7 +195,21 @@ func (r *Run) streamMarks(rule string) {
 			okp, _ := mustPass(entry(fs), isReturn, isInstr(ul[0].Ins))
 			okk = okk && okp
 			// the prefetched batch is restored too
-			okk = okk && strings.Contains(adds[1].Str, "p0.nextStream") && hasStr(adds[1].Conds(), "p0.nextStreamFetched")
+			var pre, given *effect
+			for _, a := range adds {
+				if strings.Contains(a.Str, "p0.nextStream") {
+					pre = a
+				} else if strings.Contains(a.Str, "add(p0, p2, true)") {
+					given = a
+				}
+			}
+			okk = okk && pre != nil && given != nil && hasStr(pre.Conds(), "p0.nextStreamFetched") && len(given.Conds()) == 0
+			if pre != nil && given != nil {
+				// front insertion: what is restored last ends up first. The given-back items must be handed out first,
+				// so the prefetched (later arrived) batch is restored before them
+				found, _ := pathExists(after(given.Ins), isInstr(pre.Ins), nil, nil)
+				r.check(!found, rule, "FinishStreaming:prefetched-restored-before-given-back", r.at(w, given.Ins), "", "the prefetched batch is pushed to the front after the given-back items: later arrivals are handed out before the items given back after the build")
+			}
 		}
 		r.check(okk, rule, "FinishStreaming:clear-then-restore-then-unlock", w.rel(fs.Pos()), "", "FinishStreaming does not clear the streamed marks before restoring (given and prefetched items) and release the stream lock on every exit")
 	}
@@ -194,6 +218,48 @@ func (r *Run) streamMarks(rule string) {
 		lk := findEffects(ss, "call (*sync.Mutex).Lock(p0.streamLock)")
 		nw := findEffects(ss, "store p0.streamedItems = ago/utils/set.NewSet(*)")
 		r.check(len(lk) == 1 && len(nw) == 1, rule, "StartStreaming:lock+fresh-marks", w.rel(ss.Pos()), "", "StartStreaming does not take the stream lock and start with an empty mark set")
+		// lock order: FinishStreaming releases the stream lock while holding mu, so waiting for the stream lock with mu held deadlocks
+		mul := findEffects(ss, "call (*sync.RWMutex).Lock(p0.mu)")
+		if len(lk) == 1 && len(mul) == 1 {
+			found, _ := pathExists(after(mul[0].Ins), isInstr(lk[0].Ins), nil, nil)
+			r.check(!found, rule, "StartStreaming:stream-lock-before-mu", r.at(w, lk[0].Ins), "", "StartStreaming waits for the stream lock while holding mu; FinishStreaming needs mu to release the stream lock: a second StartStreaming before the previous FinishStreaming blocks the mempool forever")
+		}
+	}
+	// a prefetch outside a stream takes nothing out of the mempool
+	if ps := r.fn(w, rule, MP+"PrepareStream"); ps != nil {
+		es := findEffects(ps, "call (*internal/mempool.Mempool).streamItems(p0, p2)")
+		r.check(len(es) == 1 && (hasStr(es[0].Conds(), "nil != p0.streamedItems") || hasStr(es[0].Conds(), "p0.streamedItems != nil")), rule, "PrepareStream:only-during-a-stream", w.rel(ps.Pos()), "", "PrepareStream pops items although no stream is active: they are neither held nor handed out and cannot be re-added")
+	}
+	// front insertion keeps the order of the restored block
+	if ad := r.fn(w, rule, MP+"add"); ad != nil {
+		pf := findEffects(ad, "call (*internal/list.List).PushFront(p0.queue, *)")
+		okk := len(pf) == 1
+		if okk {
+			okk = false
+			item := pf[0].Ins.(ssa.CallInstruction).Common().Args[1]
+			if mi, ok := item.(*ssa.MakeInterface); ok {
+				item = mi.X
+			}
+			if phi, ok := item.(*ssa.Phi); ok {
+				// the value chosen under "front" is the element counted from the end of the block
+				for i, e := range phi.Edges {
+					pred := phi.Block().Preds[i]
+					si := 0
+					for k, s := range pred.Succs {
+						if s == phi.Block() {
+							si = k
+						}
+					}
+					pc := condStrings(ctrlCondsEdge(pred, si))
+					if hasStr(pc, "p2") && strings.HasPrefix(term(e), "p1[((builtin.len(p1) - 1) - ") {
+						okk = true
+					}
+				}
+			} else if t := term(item); strings.HasPrefix(t, "p1[((builtin.len(p1) - 1) - ") {
+				okk = true
+			}
+		}
+		r.check(okk, rule, "add:front-insertion-keeps-block-order", w.rel(ad.Pos()), "", "items restored to the front are pushed one by one in forward order, which reverses them: given-back items are no longer handed out in arrival order")
 	}
 }
 
